@@ -13,3 +13,6 @@ func vh(point string, args ...interface{}) {
 		h(point, args...)
 	}
 }
+
+// VerifNodeOf returns the graph node of r as the hooks report it.
+func VerifNodeOf(r *Resource) interface{} { return &r.node }
